@@ -1752,6 +1752,20 @@ def rule_openmisc(text):
         (r"let" + ws + r"mut" + ws + r"metadata" + ws + r"=" + ws + r"self\._metadata\.write\(\);" + ws + r"metadata\.device_size" + ws + r"=" + ws + r"self\.device_size;" + ws + r"metadata\.update\(\);",
          "self._metadata.set_device_size_and_update(self.device_size);", "R-lock", "shim: recording the device size in the metadata block under its write lock"),
         (r"#\[cfg\(not\(unix\)\)\]" + ws + r"let" + ws + r"use_direct_io" + ws + r"=" + ws + r"false;", "", "R-cfg", "not compiled on this platform"),
+        (r"#\[cfg\(target_os" + ws + r"=" + ws + r"\"linux\"\)\]" + ws + r"if" + ws + r"sparse_file_has_no_data", "if sparse_file_has_no_data", "R-cfg", "cfg(target_os = linux) holds on this platform"),
+        (r"let" + ws + r"mut" + ws + r"contents" + ws + r"=" + ws + r"std::fs::OpenOptions::new\(\)" + ws + r"\.read\(true\)" + ws + r"\.open\((\w+)\)" + ws + r"\.map_err\(FeoxError::IoError\)\?;",
+         r"let mut contents = open_for_reading(\1)?;", "R-fs", "shim: a second read-only descriptor on the same path, positioned at 0"),
+        (r"vec!\[0;" + ws + r"([^\]]+)\]", r"zeroed_vec(\1)", "R-vec", "shim: vec![0; n] has length n"),
+        (r"(\w+)\.min\((\w+)\.len\(\)" + ws + r"as" + ws + r"u64\)", r"min_u64(\1, \2.len() as u64)", "R-arith", "definition of u64::min"),
+        (r"contents" + ws + r"\.read_exact\(&mut" + ws + r"buffer\[\.\.(\w+)\]\)" + ws + r"\.map_err\(FeoxError::IoError\)\?;", r"contents.read_exact_into(&mut buffer, \1)?;", "R-fs",
+         "shim: read_exact into the first n bytes of the buffer = the next n bytes of the file or an error"),
+        (r"buffer\[\.\.(\w+)\]\.iter\(\)\.any\(\|byte\|" + ws + r"\*byte" + ws + r"!=" + ws + r"0\)", r"any_nonzero(&buffer, \1)", "R-any", "verified helper: some byte among the first n is non-zero"),
+        (r"use" + ws + r"std::os::fd::AsRawFd;", "", "R-use", "import dropped"),
+        (r"unsafe" + ws + r"\{" + ws + r"libc::lseek\((\w+)\.as_raw_fd\(\)," + ws + r"(\w+)," + ws + r"libc::SEEK_DATA\)" + ws + r"\}", r"lseek_data(\1, \2)", "R-ffi",
+         "shim: lseek(fd, from, SEEK_DATA) with the kernel's documented meaning of ENXIO (unsafe FFI call, trusted)"),
+        (r"std::io::Error::last_os_error\(\)", "last_os_error()", "R-ffi", "shim: the errno left by the preceding system call"),
+        (r"libc::ENXIO", "LIBC_ENXIO", "R-ffi", "errno constant 6"),
+        (r"libc::EINVAL", "LIBC_EINVAL", "R-ffi", "errno constant 22"),
         (r"!(\w+)\.is_multiple_of\(([^()]*(?:\([^()]*\))?[^()]*)\)", r"(\1 % (\2) != 0)", "R-arith", "definition of u64::is_multiple_of for a non-zero divisor"),
         (r"(\w+)\.unwrap_or\((\w+)\)", r"(match \1 { Some(v_) => v_, None => \2 })", "R-ounwrapor", "definition of Option::unwrap_or"),
     ]
@@ -1857,3 +1871,15 @@ def rule_startmisc(text):
 
 def rule_sig_start(text):
     return text, []
+
+
+def rule_sig_open(text):
+    apps = []
+    for pat, rep, why in ((r"&\s*std::fs::File", "&File", "opaque file handle"), (r"&\s*str\b", "&String", "the path as the caller's String (deref coercion at the call site)")):
+        while True:
+            mm = re.search(pat, text)
+            if not mm:
+                break
+            apps.append(_app("R-handle", text, mm.start(), mm.end(), rep, why))
+            text = text[:mm.start()] + rep + text[mm.end():]
+    return text, apps
